@@ -56,7 +56,27 @@ def r10a(ctx, run):
     cs = calls_in_lines(fn, lo, hi)
     checks = [c for c in cs if short(c.callee) == "compile_unreachablez"]
     if len(checks) != 1:
-        run.finding(FCE, "index-check-count", fn.file, lo, "expected exactly one bounds check (compile_unreachablez) in the Expr::Index arm, found %d" % len(checks))
+        # the check may have been moved into a helper of the function compiler: its comparison is looked at there (the other clauses are not carried through
+        # a helper, so the rule still fails closed)
+        via = []
+        for c in cs:
+            if "FunctionCompiler" not in c.callee or short(c.callee) in ("compile_unreachablez", "compile_expr", "compile_expr_with_args"):
+                continue
+            try:
+                h = F.fn(strip_generics(c.callee))
+            except Exception:
+                continue
+            hc = [x for x in h.calls() if short(x.callee) == "compile_unreachablez"]
+            if len(hc) == 1:
+                cond = h.chain_operand(hc[0].args[1], depth=12)
+                if cond.get("kind") == "call" and short(cond["callee"]) == "icmp" and len(cond["args"]) == 4:
+                    via.append((c, hc[0], enum_of(cond["args"][1])))
+        for c, hc0, cc in via:
+            if cc not in ("UnsignedLessThan", "UnsignedGreaterThan"):
+                run.finding(FCE, "index-cc", hc0.file, hc0.ln, "the bounds check of the Expr::Index arm (moved into %s) compares with IntCC::%s; it must be `index <u len`: a signed "
+                            "comparison lets an index of 2^63 or more (a wrapped counter, usize.(-1)) pass as negative, any other code admits index == len" % (short(c.callee), cc))
+        run.finding(FCE, "index-check-count", fn.file, lo, "expected exactly one bounds check (compile_unreachablez) in the Expr::Index arm, found %d%s" % (
+            len(checks), " (a helper holds one: %s - its operands and dominance are not established through the call)" % ", ".join(short(c.callee) for c, _, _ in via) if via else ""))
         return
     U = checks[0]
     cond = fn.chain_operand(U.args[1], depth=12)
